@@ -73,6 +73,7 @@ type world struct {
 	root    string
 	canary  string
 	stage   string
+	xdev    string // a directory on another device (tmpfs): staged files there are copied, not renamed
 	nodes   map[int]*inode
 	max     int
 	seq     int
@@ -237,7 +238,7 @@ func canaryDigest(path string) string {
 			fmt.Fprintf(&b, "%s:ERR %v;", p, err)
 			return
 		}
-		fmt.Fprintf(&b, "%s:%o:%d.%d:%d.%d:%d:%d;", p, st.Mode, st.Mtim.Sec, st.Mtim.Nsec, st.Atim.Sec, st.Atim.Nsec, st.Size, st.Nlink)
+		fmt.Fprintf(&b, "%s:%o:%d/%d:%d.%d:%d.%d:%d:%d;", p, st.Mode, st.Uid, st.Gid, st.Mtim.Sec, st.Mtim.Nsec, st.Atim.Sec, st.Atim.Nsec, st.Size, st.Nlink)
 		switch st.Mode & syscall.S_IFMT {
 		case syscall.S_IFDIR:
 			// list through a raw getdents on an O_NOATIME descriptor so that the check itself leaves no trace
@@ -567,6 +568,130 @@ func (w *world) transition(kind, path string) string {
 	panic("bad kind")
 }
 
+// relPath is the root-relative path of a bound directory inode.
+func (w *world) relPath(i int) string {
+	if i == 1 {
+		return ""
+	}
+	n := w.nodes[i]
+	return scanx.Join(w.relPath(n.dir), n.name)
+}
+
+// filePaths lists the root-relative paths of the regular files reachable through directories.
+func (w *world) filePaths() []string {
+	var out []string
+	var rec func(i int, path string)
+	rec = func(i int, path string) {
+		for _, e := range w.nodes[i].entries {
+			switch w.nodes[e.ino].kind {
+			case 'D':
+				rec(e.ino, scanx.Join(path, e.name))
+			case 'F':
+				out = append(out, scanx.Join(path, e.name))
+			}
+		}
+	}
+	rec(1, "")
+	return out
+}
+
+// permTransition runs a transition that ends in Directory.SetPermissions(name): an
+// executability-only change of a file ("x"; "sx" with swap), the creation of a directory
+// ("sd") or of a file whose staged copy lies on another device ("sf"). For the s-kinds the
+// fault hook replaces the entry by a symbolic link to target when SetPermissions starts.
+func (w *world) permTransition(kind, path, target string) (string, bool) {
+	ctx := context.Background()
+	leaf := path
+	parentDisk := w.root
+	if i := strings.LastIndexByte(path, '/'); i >= 0 {
+		leaf, parentDisk = path[i+1:], w.root+"/"+path[:i]
+	}
+	swapped := false
+	if kind != "x" {
+		filesystem.VerifSetFaultHook(func(op, name string) error {
+			if op != "chmod" || swapped {
+				return nil
+			}
+			if kind == "sf" {
+				if !strings.HasPrefix(name, filesystem.TemporaryNamePrefix) {
+					return nil
+				}
+			} else if name != leaf {
+				return nil
+			}
+			// the adversary's move: the entry becomes a link out of the root
+			if os.Remove(parentDisk+"/"+name) == nil && os.Symlink(target, parentDisk+"/"+name) == nil {
+				swapped = true
+			}
+			return nil
+		})
+		defer filesystem.VerifSetFaultHook(nil)
+	}
+	var results []*core.Entry
+	var problems []*core.Problem
+	switch kind {
+	case "x", "sx":
+		cache := &core.Cache{Entries: map[string]*core.CacheEntry{}}
+		var st syscall.Stat_t
+		if err := syscall.Stat(w.root+"/"+path, &st); err == nil && st.Mode&syscall.S_IFMT == syscall.S_IFREG {
+			// (a digest cache only ever describes regular files)
+			cache.Entries[path] = &core.CacheEntry{Mode: st.Mode, ModificationTime: &timestamppb.Timestamp{Seconds: st.Mtim.Sec, Nanos: int32(st.Mtim.Nsec)},
+				Size: uint64(st.Size), FileID: st.Ino, Digest: []byte{7}}
+		}
+		old := &core.Entry{Kind: core.EntryKind_File, Digest: []byte{7}}
+		neu := &core.Entry{Kind: core.EntryKind_File, Digest: []byte{7}, Executable: true}
+		results, problems, _ = core.Transition(ctx, w.root, []*core.Change{{Path: path, Old: old, New: neu}}, cache,
+			core.SymbolicLinkMode_SymbolicLinkModePOSIXRaw, 0o600, 0o700, nil, false, &provider{})
+		if len(problems) == 0 && len(results) == 1 && results[0] == neu {
+			return "ok", swapped
+		}
+		return "fail", swapped
+	case "sd":
+		e := &core.Entry{Kind: core.EntryKind_Directory}
+		results, problems, _ = core.Transition(ctx, w.root, []*core.Change{{Path: path, New: e}}, &core.Cache{},
+			core.SymbolicLinkMode_SymbolicLinkModePOSIXRaw, 0o600, 0o700, nil, false, &provider{})
+	case "sf":
+		w.seq++
+		prov := &provider{path: w.xdev + "/provide-" + strconv.Itoa(w.seq)}
+		must(os.WriteFile(prov.path, []byte("new"), 0o600))
+		defer os.Remove(prov.path)
+		e := &core.Entry{Kind: core.EntryKind_File, Digest: []byte{1}}
+		results, problems, _ = core.Transition(ctx, w.root, []*core.Change{{Path: path, New: e}}, &core.Cache{},
+			core.SymbolicLinkMode_SymbolicLinkModePOSIXRaw, 0o600, 0o700, nil, false, prov)
+	}
+	if len(problems) == 0 && len(results) == 1 && results[0] != nil {
+		return "ok", swapped
+	}
+	return "fail", swapped
+}
+
+// applySwap mirrors the adversary's chmod-time swap in the graph.
+func (w *world) applySwap(kind, path, target string) {
+	if kind == "sf" {
+		return // the intermediate temporary entry (by then the link) is removed again by the transition
+	}
+	comps := strings.Split(path, "/")
+	cur := 1
+	for _, c := range comps[:len(comps)-1] {
+		i, ok := w.nodes[cur].get(c)
+		if !ok {
+			panic("graph out of step with disk at " + path)
+		}
+		cur = i
+	}
+	leaf := comps[len(comps)-1]
+	d := w.nodes[cur]
+	switch kind {
+	case "sd":
+		// the directory that was created and removed again keeps its number
+		w.add(&inode{kind: 'D', parent: cur, detached: "(removed)"})
+	case "sx":
+		d.unbind(leaf)
+	}
+	i := w.add(&inode{kind: 'L', target: target, dir: cur, name: leaf})
+	d.entries = append([]ent{{leaf, i}}, d.entries...)
+}
+
 // applyCreated mirrors a successful create / remove in the graph.
 func (w *world) applyTransition(kind, path string) {
 	comps := strings.Split(path, "/")
@@ -776,7 +901,48 @@ func (w *world) opsCase(c *hx.Ctx) {
 			rsync.VerifC17Finalize(recv)
 			item, out = "r:"+encPaths(ps), strings.Join(res, ",")
 			c.Count("receive")
-		case x < 76:
+		case x < 70:
+			// Transitions that end in Directory.SetPermissions(name), with the entry swapped for a
+			// link into the canary at the moment SetPermissions starts (fault hook "chmod").
+			kind := []string{"x", "sx", "sx", "sd", "sd", "sf"}[w.r.Intn(6)]
+			var p string
+			switch kind {
+			case "x", "sx":
+				if fs := w.filePaths(); len(fs) > 0 && w.r.Chance(4, 5) {
+					p = fs[w.r.Intn(len(fs))]
+				} else {
+					p = w.genPath()
+				}
+			default:
+				if w.r.Chance(4, 5) {
+					ds := w.dirs()
+					w.seq++
+					p = scanx.Join(w.relPath(ds[w.r.Intn(len(ds))]), "new"+strconv.Itoa(w.seq))
+				} else {
+					p = w.genCreatePath()
+				}
+			}
+			if p == "" || strings.HasPrefix(p, "/") {
+				continue
+			}
+			target := []string{w.canary + "/secret-1", w.canary, w.canary + "/inner", "../canary/secret-2", w.canary + "/secret-2"}[w.r.Intn(5)]
+			res, swapped := w.permTransition(kind, p, target)
+			if swapped && res == "ok" {
+				fail("crossing-succeeded", "Transition %s %q reported success although the entry had become a link to %s", kind, p, target)
+			}
+			if swapped {
+				w.applySwap(kind, p, target)
+				c.Count("chmod-swap:" + kind)
+			}
+			switch kind {
+			case "x", "sf":
+				item = kind + ":" + hx.EncText(p)
+			default:
+				item = kind + ":" + hx.EncText(p) + ":" + hx.EncText(target)
+			}
+			out = res
+			c.Count("transition:" + kind + ":" + res)
+		case x < 82:
 			kind := []string{"cf", "cd", "cl", "rm"}[w.r.Intn(4)]
 			var p string
 			if kind == "rm" {
@@ -905,7 +1071,11 @@ func main() {
 	hx.Main("C17", func(c *hx.Ctx) {
 		scratch := scanx.Scratch("c17")
 		defer os.RemoveAll(scratch)
-		w := &world{r: c.R, scratch: scratch + "/w", root: scratch + "/w/root", canary: scratch + "/w/canary", stage: scratch + "/w/stage"}
+		w := &world{r: c.R, scratch: scratch + "/w", root: scratch + "/w/root", canary: scratch + "/w/canary", stage: scratch + "/w/stage",
+			xdev: scratch + "/xdev"}
+		must(os.MkdirAll(w.xdev, 0o755))
+		must(syscall.Mount("tmpfs", w.xdev, "tmpfs", 0, "size=4m"))
+		defer syscall.Unmount(w.xdev, syscall.MNT_DETACH)
 		if lines := c.ReplayLines(); lines != nil {
 			c.Note("replay re-executes the model side only: a C17 case is a real directory tree with a script; the op line is its description")
 			for _, l := range lines {
